@@ -125,15 +125,30 @@ def gen_bind(tp):
     return ['bind', keys, tp.choice(['default', 'default', 'test', 'nogate'])]
 
 
-def gen_pat(tp, depth=0):
-    k = tp.draw(10)
+def gen_mono(tp):
+    b = gen_bind(tp)
+    keys = b[1]
+    # the first event creates the synth: it is never a rest here
+    if isinstance(keys['dur'][0], list):
+        keys['dur'][0] = keys['dur'][0][1]
+    return ['mono', keys, tp.choice(['default', 'default', 'test', 'nogate'])]
+
+
+def gen_pat(tp, depth=0, allow_mono=True):
+    k = tp.draw(11)
+    if k == 10:
+        # (what a cut-short or chained Pmono does with its clean-up is not
+        # modelled: only at top level, in Ppar and after Pdelta)
+        return gen_mono(tp) if allow_mono else gen_bind(tp)
     if depth < 2 and k == 0:
-        return ['par', [gen_pat(tp, depth + 1)
+        return ['par', [gen_pat(tp, depth + 1, allow_mono)
                         for _ in range(2 + tp.draw(2))]]
     if depth < 2 and k == 1:
-        return ['dur', tp.choice([0.5, 1, 1.25, 2, 3]), gen_pat(tp, depth + 1)]
+        return ['dur', tp.choice([0.5, 1, 1.25, 2, 3]),
+                gen_pat(tp, depth + 1, False)]
     if depth < 2 and k == 2:
-        return ['delta', tp.choice([0.25, 0.5, 1]), gen_pat(tp, depth + 1)]
+        return ['delta', tp.choice([0.25, 0.5, 1]),
+                gen_pat(tp, depth + 1, allow_mono)]
     if depth < 2 and k == 3:
         a = gen_bind(tp)
         b = gen_bind(tp)
@@ -209,7 +224,7 @@ def sub_pats(p):
         yield p[2]
     elif p[0] == 'chain':
         yield p[2]
-    elif p[0] == 'bind':
+    elif p[0] in ('bind', 'mono'):
         keys = p[1]
         n = len(keys['dur'])
         if n > 1:
@@ -310,9 +325,18 @@ def expected_msgs(ev, t, latency):
     return out, r
 
 
+MONO_ID = [0]
+
+
 def expand(p, inherited=None):
     """pattern -> list of (offset, event keys) and total duration"""
     k = p[0]
+    if k == 'mono':
+        evs, tot = expand(['bind', p[1], p[2]])
+        MONO_ID[0] += 1
+        for i, (t, ev) in enumerate(evs):
+            ev['_mono'] = (MONO_ID[0], i, tot, len(evs))
+        return evs, tot
     if k == 'bind':
         keys = p[1]
         n = min(len(v) for v in keys.values() if isinstance(v, list))
@@ -391,6 +415,11 @@ def build_pattern(p):
                 d[kk] = v
         d['instrument'] = p[2]
         return Pbind(d)
+    if k == 'mono':
+        from sc3.seq.patterns.eventpatterns import Pmono
+        b = build_pattern(['bind', p[1], p[2]])
+        b.dict.pop('instrument', None)
+        return Pmono(p[2], b.dict)
     if k == 'chain':
         a = build_pattern(p[1])
         a.dict.pop('instrument', None)
@@ -523,18 +552,40 @@ def check_bundles(world, got, case, latency, viol, stats, rel, lo=1000,
             e, r = expected_msgs(ev, T0, latency)
             exp.append((e, ev))
     else:
+        _CACHE.clear()
         for p in case['pats']:
-            evs, tot = expand(p)
-            for t, ev in evs:
+            for t, ev in expand_cached(p):
                 if ev is None:
                     continue            # silent filler (Pdelta)
                 e, r = expected_msgs(ev, T0 + t, latency)
                 exp.append((e, ev))
+    # Pmono voices first: their commands are taken out of `got`
+    mono = {}
+    rest_exp = []
+    for e, ev in exp:
+        if '_mono' in ev:
+            mono.setdefault(ev['_mono'][0], []).append(ev)
+        else:
+            rest_exp.append((e, ev))
+    exp = rest_exp
+    got = list(got)
+    mono_ids = set()
+    if mono:
+        times = {}
+        if case['kind'] != 'single':
+            for p in case['pats']:
+                for t, ev in expand_cached(p):
+                    if ev is not None and '_mono' in ev:
+                        times[(ev['_mono'][0], ev['_mono'][1])] = T0 + t
+        for gid, evs in mono.items():
+            if not check_mono(world, got, gid, evs, times, latency, viol,
+                              stats, rel, mono_ids):
+                return
     snew = [(t, m) for t, m in got if m[0] == '/s_new']
     gates = [(t, m) for t, m in got if m[0] == '/n_set']
     other = [(t, m) for t, m in got
              if m[0] not in ('/s_new', '/n_set', '/g_new', '/c_set',
-                             '/d_recv')]
+                             '/d_recv')]   # (Pmono's were removed above)
     if other:
         viol.add('C14-1', f'{world}-unexpected-command',
                  f'{world}: unexpected command {other[0]}')
@@ -611,10 +662,124 @@ def check_bundles(world, got, case, latency, viol, stats, rel, lo=1000,
             viol.add('C14-2', f'{world}-gate-off-without-gate',
                      f'{world}: instrument {pay["instr"]} has no gate but '
                      f'node {nid} got {offs[0][1][1]}')
-    stray = [x for x in gates if x[1][1] not in seen_ids]
+    stray = [x for x in gates if x[1][1] not in seen_ids
+             and x[1][1] not in mono_ids]
     if stray:
         viol.add('C14-2', f'{world}-stray-set',
                  f'{world}: /n_set for unknown node {stray[0][1]}')
+
+
+_CACHE = {}
+
+
+def expand_cached(p):
+    key = id(p)
+    if key not in _CACHE:
+        _CACHE[key] = expand(p)[0]
+    return _CACHE[key]
+
+
+DEFAULTS = {'pan': 0.0, 'out': 0, 'trig': 0.5}
+
+
+def check_mono(world, got, gid, evs, times, latency, viol, stats, rel,
+               mono_ids):
+    """One Pmono voice: /s_new for its first event, /n_set with the same
+    controls for every later non-rest event, release (gate 0 or /n_free) at
+    the end of the stream."""
+    evs = sorted(evs, key=lambda ev: ev['_mono'][1])
+    first = evs[0]
+    _, _, tot, n = first['_mono']
+    t0 = times[(gid, 0)]
+    e0, r0 = expected_msgs({k: v for k, v in first.items() if k != '_mono'},
+                           t0, latency)
+    pay = e0[0][2]
+    names = pay['params'][::2]
+    cands = [i for i, (gt, gm) in enumerate(got)
+             if gm[0] == '/s_new' and abs(gt - e0[0][0]) <= 1e-6
+             and gm[1] == pay['instr']
+             and params_match(gm[5:], pay['params'], rel)]
+    if not cands:
+        viol.add('C14-5', f'{world}-mono-synth',
+                 f'{world}: Pmono voice: no /s_new at {e0[0][0]} for '
+                 f'{pay["instr"]} with {pay["params"]}; '
+                 f'got {[(round(t, 4), m) for t, m in got][:4]}')
+        return False
+    if len(cands) > 1:
+        # identical creations at one instant (another voice or a note
+        # event): take the one whose later commands fit this voice
+        for c in cands:
+            trial = list(got)
+            tv = C.Violations()
+            nid_c = trial[c][1][2]
+            trial2 = trial[:c] + trial[c + 1:]
+            if _mono_rest(world, trial2, nid_c, gid, evs, names, times,
+                          t0, tot, latency, pay, tv, {}, rel):
+                cands = [c]
+                break
+    hit = cands[0]
+    nid = got.pop(hit)[1][2]
+    mono_ids.add(nid)
+    stats['mono-voices'] = stats.get('mono-voices', 0) + 1
+    return _mono_rest(world, got, nid, gid, evs, names, times, t0, tot,
+                      latency, pay, viol, stats, rel)
+
+
+def _mono_rest(world, got, nid, gid, evs, names, times, t0, tot, latency,
+               pay, viol, stats, rel):
+    for ev in evs[1:]:
+        r = resolve(ev)
+        if r['rest']:
+            continue
+        t = times[(gid, ev['_mono'][1])] + latency
+        want = []
+        for nm in names:
+            if nm == 'freq':
+                v = r['freq']
+            elif nm == 'amp':
+                v = r['amp']
+            elif nm in ev:
+                v = ev[nm]
+            else:
+                v = DEFAULTS.get(nm)
+            want += [nm, v]
+        hit = None
+        for i, (gt, gm) in enumerate(got):
+            if gm[0] == '/n_set' and gm[1] == nid and abs(gt - t) <= 1e-6 \
+                    and params_match(gm[2:], want, rel):
+                hit = i
+                break
+        if hit is None:
+            near = [(round(gt, 5), gm) for gt, gm in got if gm[1:2] == [nid]]
+            viol.add('C14-5', f'{world}-mono-set',
+                     f'{world}: Pmono voice on node {nid}: no /n_set {want} '
+                     f'at {t}; commands for that node: {near[:4]}')
+            return False
+        got.pop(hit)
+        stats['mono-sets'] = stats.get('mono-sets', 0) + 1
+    # release at the end of the stream
+    t_end = t0 + tot + latency
+    _, has_gate = INSTR[pay['instr']]
+    want = ['/n_set', nid, 'gate', 0] if has_gate else ['/n_free', nid]
+    hit = None
+    for i, (gt, gm) in enumerate(got):
+        if gm == want and abs(gt - t_end) <= 1e-6:
+            hit = i
+            break
+    if hit is None:
+        near = [(round(gt, 5), gm) for gt, gm in got if gm[1:2] == [nid]
+                or gm[:1] == ['/n_free']]
+        viol.add('C14-5', f'{world}-mono-release',
+                 f'{world}: Pmono voice on node {nid}: no {want} at {t_end} '
+                 f'(end of the stream); got {near[:4]}')
+        return False
+    got.pop(hit)
+    left = [gm for gt, gm in got if gm[1:2] == [nid]]
+    if left:
+        viol.add('C14-5', f'{world}-mono-extra',
+                 f'{world}: extra commands for Pmono node {nid}: {left[:3]}')
+        return False
+    return True
 
 
 def params_match(got, want, rel):
